@@ -1627,3 +1627,125 @@ def c15_wait_procs_search(meta, seed, budget):
         yield {"exits": exits, "timeout": timeout}
         n += 1
     yield {"exits": [0.1], "timeout": -1}
+
+
+# ---------------------------------------------------------------------------
+# C09
+# ---------------------------------------------------------------------------
+
+@runner("c09:netdev")
+def c09_netdev(model, meta):
+    import psutil
+    from psutil import _pslinux
+    nics = model["nics"]        # [(name, [16 counters])]
+    txt = b"Inter-|   Receive                                                |  Transmit\n face |bytes    packets errs drop fifo frame compressed multicast|bytes    packets errs drop fifo colls carrier compressed\n"
+    want = {}
+    for name, c in nics:
+        txt += (" " * (6 - len(name)) + name + ":" + " ".join("%d" % x for x in c) + "\n").encode()
+        want[name] = (c[8], c[0], c[9], c[1], c[2], c[10], c[3], c[11])
+    with fake_procfs({"net/dev": txt}):
+        try:
+            got, exc = _pslinux.net_io_counters(), None
+            psutil.net_io_counters.cache_clear()
+            tot = psutil.net_io_counters(nowrap=False)
+            per = psutil.net_io_counters(pernic=True, nowrap=False)
+        except Exception as e:  # noqa: BLE001
+            got, exc, tot, per = None, e, None, None
+    bad = exc is not None or got != want
+    if not bad:
+        if not want:
+            bad = tot is not None or per != {}
+        else:
+            bad = tuple(tot) != tuple(sum(v[i] for v in want.values()) for i in range(8)) or \
+                {k: tuple(v) for k, v in per.items()} != want
+    return {"env": {}, "result": got, "exc": exc, "verdict": bad, "expected": want}
+
+
+@search("c09:netdev")
+def c09_netdev_search(meta, seed, budget):
+    import random
+    rng = random.Random(seed)
+    names = ["lo", "eth0", "eth0:1", "wlan0", "veth1a/b", "br-12:34", "0", "a:b:c", "tun0", "docker0", "enp0s31f6"]
+    for n in range(budget):
+        k = rng.randrange(0, 5)
+        chosen = rng.sample(names, k)
+        yield {"nics": [(nm, [rng.choice([0, 1, rng.randrange(2 ** 32), 2 ** 64 - 1, rng.randrange(2 ** 64)]) for _ in range(16)])
+                        for nm in chosen]}
+
+
+def ref_diskstats_line(fields):
+    """documented column maps: (name, reads, writes, rbytes, wbytes, rtime, wtime, rmerged, wmerged, busy)"""
+    n = len(fields)
+    iv = lambda k: int(fields[k])  # noqa: E731
+    if n == 15:     # Linux 2.4: major minor #blocks name rio rmerge rsect ruse wio wmerge wsect wuse running use aveq
+        return (fields[3], iv(4), iv(8), iv(6) * 512, iv(10) * 512, iv(7), iv(11), iv(5), iv(9), iv(13))
+    if n == 14 or n >= 18:
+        return (fields[2], iv(3), iv(7), iv(5) * 512, iv(9) * 512, iv(6), iv(10), iv(4), iv(8), iv(12))
+    if n == 7:
+        return (fields[2], iv(3), iv(5), iv(4) * 512, iv(6) * 512, 0, 0, 0, 0, 0)
+    raise ValueError(n)
+
+
+@runner("c09:diskstats")
+def c09_diskstats(model, meta):
+    import psutil
+    from psutil import _pslinux
+    lines = model.get("lines")
+    if lines is None:
+        return {"env": {}, "result": None, "exc": None, "verdict": False}
+    disks = set(model.get("whole_disks", []))
+    txt = "".join(" ".join(str(x) for x in f) + "\n" for f in lines).encode()
+    want_all = {}
+    layouts = set()
+    for f in lines:
+        r = ref_diskstats_line([str(x) for x in f])
+        want_all[r[0]] = r[1:]
+        layouts.add(len(f))
+    with fake_procfs({"diskstats": txt}):
+        with mock.patch.object(_pslinux, "is_storage_device", lambda name: name in disks):
+            try:
+                per = _pslinux.disk_io_counters(perdisk=True)
+                tot_raw = _pslinux.disk_io_counters(perdisk=False)
+                psutil.disk_io_counters.cache_clear()
+                tot = psutil.disk_io_counters(nowrap=False)
+                exc = None
+            except Exception as e:  # noqa: BLE001
+                per, tot_raw, tot, exc = None, None, None, e
+    tag = None
+    bad = exc is not None or per != want_all
+    if bad and exc is None and 15 in layouts:
+        # recorded finding C09-kernel-2.4: only the 15-field lines differ
+        if {k: v for k, v in per.items() if len([f for f in lines if str(f[3 if len(f) == 15 else 2]) == k][0]) != 15} == \
+                {k: v for k, v in want_all.items() if len([f for f in lines if str(f[3 if len(f) == 15 else 2]) == k][0]) != 15}:
+            tag = "kernel-2.4-layout-shifted"
+    if not bad:
+        want_tot = {k: v for k, v in want_all.items() if k in disks}
+        bad = tot_raw != want_tot
+        if not bad:
+            if not want_tot:
+                bad = tot is not None
+            else:
+                bad = tuple(tot) != tuple(sum(v[i] for v in want_tot.values()) for i in range(9))
+    return {"env": {}, "result": per, "exc": exc, "verdict": bad, "expected": want_all, "tag": tag}
+
+
+@search("c09:diskstats")
+def c09_diskstats_search(meta, seed, budget):
+    import random
+    rng = random.Random(seed)
+    names = ["sda", "sda1", "sda2", "nvme0n1", "nvme0n1p1", "md1", "md10", "dm-1", "dm-10", "loop0", "cciss/c0d0", "sr0"]
+    c = lambda: rng.choice([0, 1, rng.randrange(2 ** 32), rng.randrange(2 ** 64)])  # noqa: E731
+    for n in range(budget):
+        k = rng.randrange(0, 6)
+        chosen = rng.sample(names, k)
+        lines = []
+        use24 = n % 9 == 4
+        for nm in chosen:
+            layout = 15 if use24 else rng.choice([14, 18, 20, 7, 14])
+            if layout == 15:
+                lines.append([8, 0, c(), nm] + [c() for _ in range(11)])
+            elif layout == 7:
+                lines.append([8, 1, nm] + [c() for _ in range(4)])
+            else:
+                lines.append([8, 0, nm] + [c() for _ in range(layout - 3)])
+        yield {"lines": lines, "whole_disks": [nm for nm in chosen if not nm[-1].isdigit() or nm in ("nvme0n1", "md1", "md10", "dm-1", "dm-10", "loop0", "sr0", "cciss/c0d0")]}
